@@ -1,6 +1,7 @@
 ---------------------------- MODULE MC_Handling ----------------------------
 (* Exhaustive configurations of Handling.tla: handler sets are defined here, budgets in the cfg files. *)
 EXTENDS Handling
+None == [reasons |-> {}, optional |-> FALSE, deleted |-> FALSE, retries |-> 0, mode |-> "temporary", backoff |-> 2]
 Hdl(reasons) == [reasons |-> reasons, optional |-> FALSE, deleted |-> FALSE, retries |-> 0, mode |-> "temporary", backoff |-> 2]
 \* two handlers registered for creation and update (same ids), one-by-one / all-at-once / asap
 HC_ab == [a |-> Hdl({"create", "update"}), b |-> Hdl({"create", "update"})]
@@ -11,6 +12,11 @@ Order_adr == <<"a", "d", "r">>
 \* optional deletion handler only (no finalizer), plus a retries-limited creation handler
 HC_lim == [a |-> [Hdl({"create"}) EXCEPT !.retries = 2], o |-> [Hdl({"delete"}) EXCEPT !.optional = TRUE]]
 Order_lim == <<"a", "o">>
+Conf(hc, order, lc, ct) == [hc |-> [h \in H |-> IF h \in DOMAIN hc THEN hc[h] ELSE None], order |-> order, lifecycle |-> lc, ctimeout |-> ct]
+Confs_ab == {Conf(HC_ab, Order_ab, lc, 2) : lc \in {"one", "all", "asap"}}
+Confs_ab_one == {Conf(HC_ab, Order_ab, "one", 2)}
+Confs_adr == {Conf(HC_adr, Order_adr, lc, 2) : lc \in {"one", "all"}}
+Confs_lim == {Conf(HC_lim, Order_lim, "asap", 2)}
 NoDoors == {}
 AllDoors == {"kill", "lost", "late", "stop"}
 LateOnly == {"late"}
